@@ -52,6 +52,10 @@ func (pass *DisjunctionWithNullToOptional) processDisjunction(visitor *Visitor, 
 	// type | null
 	finalType := disjunction.Branches.NonNullTypes()[0]
 	finalType.Nullable = true
+	// the default declared next to the disjunction is the default of the type it folds into
+	if finalType.Default == nil {
+		finalType.Default = def.Default
+	}
 	finalType.AddToPassesTrail(fmt.Sprintf("DisjunctionWithNullToOptional[%[1]s|null → %[1]s?]", ast.TypeName(finalType)))
 
 	return finalType, nil
